@@ -92,7 +92,9 @@ def _site_limit_history(algo, finite, sort="fcfs", limits=(70, 40, 88, 24)):
 
 
 def corpus():
-    return B.corpus() + [_site_limit_history("greedy", False), _site_limit_history("greedy", True, "lcfs"),
+    # the table-estimator cases of C07 (est_spec: an arbitrary UpperBoundEstimatorBase subclass) belong to C07's model
+    # (AcnModel/SortedEst.lean); drv_C08 models the rampdown estimator only
+    return [c for c in B.corpus() if not c.get("est_spec")] + [_site_limit_history("greedy", False), _site_limit_history("greedy", True, "lcfs"),
                          _site_limit_history("rr", False)]
 
 
